@@ -323,7 +323,8 @@ def extra(mon, ctx):
             except OSError as e:
                 mon.violation('rebuilt-layout-exports-same-alto-text', {'page': pid, 'exception': repr(e)[:200]})
                 continue
-            if wa != wb or not wa:
+            mon.count('parse_folder_rebuild_text_lines', len(wa))
+            if wa != wb:       # (a page whose lines were all recognised as blank has no TextLine in either export)
                 mon.violation('rebuilt-layout-exports-same-alto-text', {'page': pid, 'via': 'parse_folder', 'original': wa, 'rebuilt': wb})
             wca = re.findall(r'\bWC="([^"]*)"', open('%s/out/alto/%s.xml' % (root, pid), encoding='utf-8').read())
             wcb = re.findall(r'\bWC="([^"]*)"', open('%s/out2/alto/%s.xml' % (root, pid), encoding='utf-8').read())
